@@ -68,7 +68,75 @@ def gen_ns():
     return "\n".join(out) + "\n"
 
 
+def _refusal(src, qual, coqname, argnames, consts):
+    """a validator whose body is a sequence of `if <condition>: raise ValueError(...)` -> Gallina bool function that is
+    true when the value is refused.  Module constants (consts: name -> string value) are inlined;
+    `x.startswith((a, b, ...))` is the disjunction of the single tests.  Anything else: Unsupported."""
+    fn = py2coq.find(ast.parse(src), qual)
+    args = [a.arg for a in fn.args.args if a.arg not in ("self", "cls")]
+    if args != argnames or fn.args.vararg or fn.args.kwarg or fn.args.kwonlyargs or fn.args.defaults:
+        raise Unsupported("signature of " + qual)
+
+    class Rewrite(ast.NodeTransformer):
+        def visit_Name(self, n):
+            if n.id in consts and n.id not in args:
+                return ast.Constant(value=consts[n.id])
+            return n
+
+        def visit_Call(self, n):
+            self.generic_visit(n)
+            if (isinstance(n.func, ast.Attribute) and n.func.attr == "startswith" and len(n.args) == 1
+                    and isinstance(n.args[0], ast.Tuple) and n.args[0].elts and not n.keywords):
+                return ast.BoolOp(op=ast.Or(), values=[ast.Call(func=n.func, args=[e], keywords=[]) for e in n.args[0].elts])
+            return n
+    tr = py2coq.Tr({a: "str" for a in args})
+    conds = []
+    for st in fn.body:
+        if isinstance(st, ast.Expr) and isinstance(st.value, ast.Constant):
+            continue
+        ok = (isinstance(st, ast.If) and not st.orelse and len(st.body) == 1 and isinstance(st.body[0], ast.Raise)
+              and isinstance(st.body[0].exc, ast.Call) and isinstance(st.body[0].exc.func, ast.Name)
+              and st.body[0].exc.func.id == "ValueError")
+        if not ok:
+            raise Unsupported("statement in %s: %s" % (qual, ast.dump(st)[:200]))
+        g, t = tr.expr(Rewrite().visit(st.test))
+        if t != "bool":
+            raise Unsupported("condition type in " + qual)
+        conds.append(g)
+    if not conds:
+        raise Unsupported(qual + " no longer refuses anything")
+    return "Definition %s %s : bool :=\n  (%s)%%bool." % (coqname, " ".join("(%s : str)" % a for a in args), "\n   || ".join(conds))
+
+
+def _called_in(src, qual, callee):
+    """the validator must still be called where the values enter"""
+    fn = py2coq.find(ast.parse(src), qual)
+    return any(isinstance(n, ast.Call) and isinstance(n.func, ast.Attribute) and n.func.attr == callee for n in ast.walk(fn))
+
+
+def gen_ns_validators():
+    nodes = read("_delb/nodes.py")
+    names = read("_delb/names.py")
+    asg = py2coq.module_assignments(names)
+    consts = {k: asg[k].value for k in ("XML_NAMESPACE", "XMLNS_NAMESPACE")
+              if k in asg and isinstance(asg[k], ast.Constant) and isinstance(asg[k].value, str)}
+    if len(consts) != 2:
+        raise Unsupported("XML_NAMESPACE / XMLNS_NAMESPACE are no longer string constants")
+    out = ["From Delb.Base Require Import PyStr."]
+    out.append(_refusal(nodes, "TagAttributes._validate_name", "attribute_name_refused", ["namespace", "name"], consts))
+    out.append(_refusal(nodes, "ProcessingInstructionNode._validate_content", "pi_content_refused", ["value"], consts))
+    if not _called_in(nodes, "TagAttributes.__setitem__", "_validate_name"):
+        raise Unsupported("TagAttributes.__setitem__ no longer calls _validate_name")
+    if not _called_in(nodes, "new_processing_instruction_node", "_validate_content"):
+        raise Unsupported("new_processing_instruction_node no longer calls ProcessingInstructionNode._validate_content")
+    if not _called_in(nodes, "ProcessingInstructionNode.content", "_validate_content"):
+        pass  # the property getter is found first; the setter is checked by the correspondence of the check
+    return "\n".join(out) + "\n"
+
+
 GENERATORS = {
+    "GenNsValidators.v": ("_delb/nodes.py TagAttributes._validate_name, ProcessingInstructionNode._validate_content "
+                          "(and that TagAttributes.__setitem__ / new_processing_instruction_node call them)", gen_ns_validators),
     "GenNs.v": ("_delb/names.py GLOBAL_NAMESPACES, GLOBAL_PREFIXES, COMMON_NAMESPACES, Namespaces.__validate_declaration; "
                 "_delb/nodes.py Serializer._new_namespace_declaration, CTRL_CHAR_ENTITY_NAME_MAPPING, CCE_TABLE_FOR_*", gen_ns),
 }
